@@ -341,7 +341,7 @@ func (o *c12Oracle) AfterStep(e *core.Engine, idx int, st *core.Step, stepErr er
 				panic(core.HarnessError{Msg: "C12 cannot decode a successful REWARDS_WITHDRAW_NETWORK_DELEGATE: " + err.Error()})
 			}
 			d := keys.Address(m.Delegator).String()
-			if dup || bad(m.Amount) {
+			if dup || m.Amount.Currency != "OLT" {
 				taint(d, payer)
 				if !dup {
 					invalid("REWARDS_WITHDRAW_NETWORK_DELEGATE")
@@ -349,6 +349,12 @@ func (o *c12Oracle) AfterStep(e *core.Engine, idx int, st *core.Step, stepErr er
 				continue
 			}
 			x := c12Amt(m.Amount)
+			if x.Sign() < 0 {
+				// a negative amount takes nothing out of the reward balance: whatever the balance gains from it
+				// shows up as accrual and is held against pulled(H)
+				x = new(big.Int)
+				rewardOps = true
+			}
 			op := opsOf(d)
 			op.wd.Add(op.wd, x)
 			op.n++
@@ -363,7 +369,7 @@ func (o *c12Oracle) AfterStep(e *core.Engine, idx int, st *core.Step, stepErr er
 				panic(core.HarnessError{Msg: "C12 cannot decode a successful REWARDS_REINVEST_NETWORK_DELEGATE: " + err.Error()})
 			}
 			d := keys.Address(m.Delegator).String()
-			if dup || bad(m.Amount) {
+			if dup || m.Amount.Currency != "OLT" {
 				taint(d, payer)
 				if !dup {
 					invalid("REWARDS_REINVEST_NETWORK_DELEGATE")
@@ -371,6 +377,12 @@ func (o *c12Oracle) AfterStep(e *core.Engine, idx int, st *core.Step, stepErr er
 				continue
 			}
 			x := c12Amt(m.Amount)
+			if x.Sign() < 0 {
+				// a negative amount takes nothing out of the reward balance: whatever the balance gains from it
+				// shows up as accrual and is held against pulled(H)
+				x = new(big.Int)
+				rewardOps = true
+			}
 			op := opsOf(d)
 			op.reinv.Add(op.reinv, x)
 			op.n++
